@@ -747,7 +747,7 @@ fn gen_action(rng: &mut Rng) -> Action {
 }
 
 fn gen_rule(rng: &mut Rng, idx: usize, allow_negative_salience: bool) -> RuleAst {
-    let h = Hostile { array_contains: true, concat_lit_arith_char: false, undefined_mix: false };
+    let h = Hostile { array_contains: true, concat_lit_arith_char: false, undefined_mix: false, fact_name_literals: false };
     let depth = 1 + rng.below(5);
     let quoted = rng.chance(3, 4);
     let name = if quoted {
